@@ -116,6 +116,7 @@ GROUPS['mulI'] = [
     A([m_, n_], z3.Implies(z3.And(m_ >= 1, n_ >= 1), z3.And(mulI(m_, n_) >= m_, mulI(m_, n_) >= n_)), [mulI(m_, n_)]),
     A([n_], z3.And(mulI(1, n_) == n_, mulI(n_, 1) == n_), [mulI(1, n_), mulI(n_, 1)]),
     A([n_], z3.And(mulI(0, n_) == 0, mulI(n_, 0) == 0), [mulI(0, n_), mulI(n_, 0)]),
+    A([m_, n_], z3.Implies(z3.And(m_ >= 0, n_ >= 0), mulI(m_, n_) >= 0), [mulI(m_, n_)]),
 ]
 
 
